@@ -1,7 +1,7 @@
 INIT MCInit
 NEXT FedNext
 CONSTANT V = 10
-CONSTANT MaxNew = 1
+CONSTANT MaxNew = 2
 CONSTANT MaxDeliver = 2
 CONSTANT TsPool = {1}
 CONSTANT Byzantine = {"s2"}
@@ -9,7 +9,7 @@ CONSTANT Tampers = {"none", "unsigned", "unprotected", "protected", "nosig"}
 CONSTANT Servers <- ServersImpl
 CONSTANT NewIds <- NewIdsImpl
 CONSTANT IdLess <- IdLessImpl
-CONSTANT BaseNames = {"public", "invite", "restricted", "nopl"}
+CONSTANT BaseNames = {"public", "invite"}
 INVARIANT ViewsClosed RedactTypedOk TamperEffect SameViewSameState HonestNeverRejected
 INVARIANT Emit
 CHECK_DEADLOCK FALSE
